@@ -298,6 +298,7 @@ def r8(ctx):
 
 
 def run(ctx):
+    scan_rule(ctx, "C09")
     r8(ctx)
     r7(ctx)
     r1(ctx)
